@@ -364,6 +364,9 @@ def list_set_inner(st, L, inner):
 
 def elem_term(st, L, v):
     alts = flatten_union(v)
+    if len(alts) > 1 and not st.spec and not st.bound_vars:
+        # alternatives the path condition excludes (e.g. None after an `is not None` test) are not stored
+        alts = [(c, a) for c, a in alts if st.feasible(c)] or alts
     term = None
     for c, a in alts:
         t = single_term(st, L.elem, a)
